@@ -1,13 +1,18 @@
 #!/usr/bin/env python3
-"""Apply every seeded change to /repo in turn, run the quick checks that could see it, record which ones raise VIOLATION.
-Writes seeded/<id>/meta.json (caught_by_quick, runs) and seeded/RESULTS.md.  /repo is restored after each seed."""
+"""Apply every seeded change to a scratch worktree of /repo's HEAD in turn (never to /repo itself), run the quick checks that
+could see it there (VERIF_REPO=<worktree>), record which ones raise VIOLATION.  Writes seeded/<id>/meta.json (caught_by_quick,
+runs) and seeded/RESULTS.md.  The worktree is removed after each seed.  A seed whose check run already stopped at the first
+catching property skips the remaining neighbour properties unless --all-props is given."""
 import json, os, subprocess, sys, time
 HERE = os.path.dirname(os.path.dirname(os.path.abspath(__file__)))
 EXTRA = {'C02': ['C01', 'C10'], 'C06': ['C10', 'C01'], 'C10': ['C06', 'C02'], 'C01': ['C40', 'C05'], 'C04': ['C10'], 'C08': ['C07'], 'C05': [], 'C14': ['C07'], 'C33': ['C17'], 'C17': ['C33'],
          'C15': ['C14'], 'C03': ['C14'], 'C16': ['C14']}
 claimed = [c['property_id'] for c in json.load(open(os.path.join(HERE, 'MANIFEST.json')))['checks']]
-only = sys.argv[1:]
+allprops = '--all-props' in sys.argv
+only = [a for a in sys.argv[1:] if not a.startswith('--')]
 rows = []
+WT = '/tmp/wt/matrix'
+head = subprocess.check_output(['git', '-C', '/repo', 'rev-parse', '--short', 'HEAD'], text=True).strip()
 for name in sorted(os.listdir(os.path.join(HERE, 'seeded'))):
     d = os.path.join(HERE, 'seeded', name)
     if not os.path.isdir(d) or (only and name not in only):
@@ -15,21 +20,30 @@ for name in sorted(os.listdir(os.path.join(HERE, 'seeded'))):
     meta = json.load(open(os.path.join(d, 'meta.json')))
     prop = meta['property']
     props = [p for p in [prop] + EXTRA.get(prop, []) if p in claimed]
-    r = subprocess.run(['git', '-C', '/repo', 'apply', os.path.join(d, 'patch.diff')], capture_output=True, text=True)
+    subprocess.run(['git', '-C', '/repo', 'worktree', 'remove', '--force', WT], capture_output=True)
+    subprocess.run(['git', '-C', '/repo', 'worktree', 'add', '--detach', WT, 'HEAD'], capture_output=True)
+    r = subprocess.run(['git', '-C', WT, 'apply', os.path.join(d, 'patch.diff')], capture_output=True, text=True)
     if r.returncode != 0:
-        rows.append((name, prop, 'PATCH DOES NOT APPLY', ''))
+        r = subprocess.run(['git', '-C', WT, 'apply', '-3', os.path.join(d, 'patch.diff')], capture_output=True, text=True)
+    if r.returncode != 0:
+        rows.append((name, prop, 'PATCH DOES NOT APPLY to %s' % head, ''))
+        print(rows[-1], flush=True)
+        subprocess.run(['git', '-C', '/repo', 'worktree', 'remove', '--force', WT], capture_output=True)
         continue
     caught, runs = [], {}
     try:
         for p in props:
+            if caught and not allprops and p != prop:
+                continue
             t0 = time.time()
-            out = subprocess.run([os.path.join(HERE, 'check'), p, '--tier', 'quick', '--no-evidence'], capture_output=True, text=True, cwd=HERE)
+            out = subprocess.run([os.path.join(HERE, 'check'), p, '--tier', 'quick', '--no-evidence'], capture_output=True, text=True, cwd=HERE,
+                                 env=dict(os.environ, VERIF_REPO=WT))
             nv = out.stdout.count('VIOLATION property=%s' % p)
             runs[p] = dict(exit=out.returncode, violations=nv, wall_s=round(time.time() - t0, 1))
             if out.returncode == 1 and nv:
                 caught.append(p)
     finally:
-        subprocess.run(['git', '-C', '/repo', 'checkout', '--', '.'])
+        subprocess.run(['git', '-C', '/repo', 'worktree', 'remove', '--force', WT], capture_output=True)
     meta['caught_by_quick'] = caught
     meta['quick_runs'] = runs
     json.dump(meta, open(os.path.join(d, 'meta.json'), 'w'), indent=1)
@@ -37,6 +51,6 @@ for name in sorted(os.listdir(os.path.join(HERE, 'seeded'))):
     print(rows[-1], flush=True)
 if not only:
     with open(os.path.join(HERE, 'seeded', 'RESULTS.md'), 'w') as f:
-        f.write('# Seeded changes vs quick checks\n\n| seed | property | caught by (quick tier) | runs |\n|---|---|---|---|\n')
+        f.write('# Seeded changes vs quick checks (applied to a scratch worktree of /repo %s)\n\n| seed | property | caught by (quick tier) | runs |\n|---|---|---|---|\n' % head)
         for r in rows:
             f.write('| %s | %s | %s | `%s` |\n' % r)
